@@ -1111,3 +1111,19 @@ package chain
 //@   assigns nothing
 //@   requires m != nil
 //@   ensures result == m.tipState.Index
+//
+// C04: registering a listener never replaces one that is registered (a replaced subscriber would
+// silently stop hearing about reorgs). The key is drawn at random; that 128 random bits do not
+// collide with a key in use is assumed, explicitly.
+//@ extern frand.Entropy128
+//@   assigns nothing
+//@ func (*Manager).OnReorg props C04
+//@   requires m != nil && m.onReorg != nil
+//@   assumeafter Entropy128 [fresh-key] : !(callres("Entropy128") in m.onReorg)
+//@   ensures [no-replacement] forall k [16]byte :: { k in m.onReorg } old(k in m.onReorg) ==> (k in m.onReorg) && same(m.onReorg[k], old(m.onReorg[k]))
+//@   ensures [registered] len(m.onReorg) == old(len(m.onReorg)) + 1
+//@ func (*Manager).OnPoolChange props C04
+//@   requires m != nil && m.onPool != nil
+//@   assumeafter Entropy128 [fresh-key] : !(callres("Entropy128") in m.onPool)
+//@   ensures [no-replacement] forall k [16]byte :: { k in m.onPool } old(k in m.onPool) ==> (k in m.onPool) && same(m.onPool[k], old(m.onPool[k]))
+//@   ensures [registered] len(m.onPool) == old(len(m.onPool)) + 1
